@@ -105,13 +105,17 @@ class Builder:
         src = os.path.join(VERIF, 'engine', 'driver.cpp')
         return (src, 'engine-driver-' + sha(' '.join(CXXFLAGS), read(src), self.eng_hash), ())
 
+    def refmath_job(self):
+        src = os.path.join(VERIF, 'engine', 'refmath.cpp')
+        return (src, 'engine-refmath-' + sha(' '.join(CXXFLAGS), read(src), read(os.path.join(VERIF, 'engine', 'refmath.hpp'))), ('-O2',))
+
     def prop_job(self, pid):
         src = os.path.join(VERIF, 'props', pid + '.cpp')
         return (src, 'prop-' + pid + '-' + sha(' '.join(CXXFLAGS), read(src), self.eng_hash, self.hdr_hash), ())
 
     def build(self, pids, jobs=NCPU):
         """returns {pid: binary path}; raises on compile errors"""
-        todo = self.lib_jobs() + [self.engine_job()] + [self.prop_job(p) for p in pids]
+        todo = self.lib_jobs() + [self.engine_job(), self.refmath_job()] + [self.prop_job(p) for p in pids]
         t0 = time.time()
         with ThreadPoolExecutor(max_workers=jobs) as ex:
             res = list(ex.map(lambda j: self.compile(*j), todo))
@@ -121,16 +125,17 @@ class Builder:
         nlib = len(self.lib_jobs())
         libobjs = [o for o, _ in res[:nlib]]
         engobj = res[nlib][0]
+        refobj = res[nlib + 1][0]
         bins = {}
         def link(i_pid):
             i, pid = i_pid
-            pobj = res[nlib + 1 + i][0]
-            key = sha(*([pobj, engobj] + libobjs))
+            pobj = res[nlib + 2 + i][0]
+            key = sha(*([pobj, engobj, refobj] + libobjs))
             out = os.path.join(BUILD, 'bin', pid + '-' + key)
             if not os.path.exists(out):
                 os.makedirs(os.path.dirname(out), exist_ok=True)
                 tmp = out + '.%d.tmp' % os.getpid()
-                r = run([CXX, pobj, engobj] + libobjs + LDFLAGS + ['-o', tmp])
+                r = run([CXX, pobj, engobj, refobj] + libobjs + LDFLAGS + ['-o', tmp])
                 if r.returncode != 0:
                     raise RuntimeError('link failed for %s\n%s' % (pid, r.stdout[-4000:]))
                 os.replace(tmp, out)
